@@ -114,7 +114,13 @@ def first_snapshot_diff(a, b):
 
 def owned_keys(machine, slot):
     """Reference for 'the keys x owns': every key a solo run of x writes on fresh candles."""
-    twin = build(slot.spec, machine.delivered)
+    spec = slot.spec
+    ctype = (machine.cfg.get("hexital") or {}).get("candlestick_type")
+    if ctype:
+        # which helper keys get written depends on the data the indicator sees: the solo reference run
+        # must see the same (converted) candles as the member inside the Hexital
+        spec = dict(spec, common=dict(spec.get("common") or {}, candlestick_type=ctype))
+    twin = build(spec, machine.delivered)
     twin.calculate()
     keys = set()
     for c in twin.candles:
